@@ -1,5 +1,5 @@
-From Sigtools.Model Require Import Base Bind Algebra Annot.
-From Sigtools.Proofs Require Import Annot.
+From Sigtools.Model Require Import Base Bind Algebra Annot Visitor Discover.
+From Sigtools.Proofs Require Import Annot AnnotTwins.
 Open Scope N_scope.
 
 Theorem C11_carried_merge : forall s0 ss r, merge (s0 :: ss) = Ok r ->
@@ -119,3 +119,74 @@ Theorem C11_pep563_partial : forall rho, injective rho -> forall g ds, Forall (t
   res_map (observe g) (merge (map up ds)).
 Proof. exact pep563_partial. Qed.
 Print Assumptions C11_pep563_partial.
+
+(* ---- twin invariance beyond merge (Proofs/AnnotTwins.v): computing on postponed-annotation
+   signatures and then evaluating gives what computing on the eagerly annotated twins gives, for
+   embed, mask, partial, forwards and the composition automatic discovery performs.  mask and
+   partial need no hypothesis on the environment; embed / forwards / discover compare annotations
+   (conciliation) and need it injective on the spellings involved: the two refutations show the
+   inputs that force this. *)
+Theorem C11_twin_embed : forall rho : N -> N, injective rho -> forall (g : genv) (ds : list fdesc) (uva uvk : bool), Forall (twin_ok rho g) ds -> res_map (observe g) (embed (map up (map (eager_twin g) ds)) uva uvk) = res_map (observe g) (embed (map up ds) uva uvk).
+Proof. exact @twin_embed. Qed.
+Print Assumptions C11_twin_embed.
+
+Theorem C11_twin_forwards : forall rho : N -> N, injective rho -> forall (g : genv) (d0 d1 : fdesc) (n : nat) (names0 : list name) (ha hk uva uvk p : bool), twin_ok rho g d0 -> twin_ok rho g d1 -> res_map (observe g) (forwards (up (eager_twin g d0)) (up (eager_twin g d1)) n names0 ha hk uva uvk p) = res_map (observe g) (forwards (up d0) (up d1) n names0 ha hk uva uvk p).
+Proof. exact @twin_forwards. Qed.
+Print Assumptions C11_twin_forwards.
+
+Theorem C11_twin_discover : forall rho : N -> N, injective rho -> forall (g : genv) (d_own d_plain : fdesc) (ha : bool) (cs : list (callinfo * fdesc * bool)), twin_ok rho g d_own -> twin_ok rho g d_plain -> Forall (fun x : callinfo * fdesc * bool => twin_ok rho g (snd (fst x))) cs -> observe g (discover (up (eager_twin g d_own)) (up (eager_twin g d_plain)) ha (calls_of (eager_twin g) cs)) = observe g (discover (up d_own) (up d_plain) ha (calls_of (fun d : fdesc => d) cs)).
+Proof. exact @twin_discover. Qed.
+Print Assumptions C11_twin_discover.
+
+Theorem C11_twin_mask_gen : forall (g : genv) (d : fdesc) (n : nat) (h : hideflags) (named : list (name * N)) (pm : pmode), bound_ok g d -> res_map (observe g) (mask_gen (up (eager_twin g d)) n h named pm) = res_map (observe g) (mask_gen (up d) n h named pm).
+Proof. exact @twin_mask_gen. Qed.
+Print Assumptions C11_twin_mask_gen.
+
+Theorem C11_twin_mask : forall (g : genv) (d : fdesc) (n : nat) (names0 : list name) (h : hideflags), bound_ok g d -> res_map (observe g) (mask (up (eager_twin g d)) n names0 h) = res_map (observe g) (mask (up d) n names0 h).
+Proof. exact @twin_mask. Qed.
+Print Assumptions C11_twin_mask.
+
+Theorem C11_twin_sig_partial : forall (g : genv) (d : fdesc) (n : nat) (kw : list (name * N)) (pobj : N), bound_ok g d -> res_map (observe g) (sig_partial (up (eager_twin g d)) n kw pobj) = res_map (observe g) (sig_partial (up d) n kw pobj).
+Proof. exact @twin_sig_partial. Qed.
+Print Assumptions C11_twin_sig_partial.
+
+Theorem C11_pep563_embed : forall rho : N -> N, injective rho -> forall (g : genv) (ss : list sigT) (uva uvk : bool), Forall (coherent_sig rho g) ss -> res_map (observe g) (embed (map (eagerize rho) ss) uva uvk) = res_map (observe g) (embed ss uva uvk).
+Proof. exact @pep563_embed. Qed.
+Print Assumptions C11_pep563_embed.
+
+Theorem C11_pep563_forwards : forall rho : N -> N, injective rho -> forall (g : genv) (o i : sigT) (n : nat) (names0 : list name) (ha hk uva uvk p : bool), coherent_sig rho g o -> coherent_sig rho g i -> res_map (observe g) (forwards (eagerize rho o) (eagerize rho i) n names0 ha hk uva uvk p) = res_map (observe g) (forwards o i n names0 ha hk uva uvk p).
+Proof. exact @pep563_forwards. Qed.
+Print Assumptions C11_pep563_forwards.
+
+Theorem C11_pep563_discover : forall rho : N -> N, injective rho -> forall (g : genv) (own plain : sigT) (ha : bool) (calls : list callinfo), coherent_sig rho g own -> coherent_sig rho g plain -> Forall (coherent_call rho g) calls -> observe g (discover (eagerize rho own) (eagerize rho plain) ha (map (Ecall rho) calls)) = observe g (discover own plain ha calls).
+Proof. exact @pep563_discover. Qed.
+Print Assumptions C11_pep563_discover.
+
+Theorem C11_pep563_mask_gen : forall (rho : N -> N) (g : genv) (s : sigT) (n : nat) (h : hideflags) (named : list (name * N)) (pm : pmode), coherent_sig rho g s -> res_map (observe g) (mask_gen (eagerize rho s) n h named pm) = res_map (observe g) (mask_gen s n h named pm).
+Proof. exact @pep563_mask_gen. Qed.
+Print Assumptions C11_pep563_mask_gen.
+
+Theorem C11_pep563_merge_local : forall (S : list N) (rho : N -> N), inj_on S rho -> forall (g : genv) (ss : list sigT), Forall (raws_in S) ss -> Forall (coherent_sig rho g) ss -> res_map (observe g) (merge (map (eagerize rho) ss)) = res_map (observe g) (merge ss).
+Proof. exact @pep563_merge_local. Qed.
+Print Assumptions C11_pep563_merge_local.
+
+Theorem C11_pep563_embed_local : forall (S : list N) (rho : N -> N), inj_on S rho -> forall (g : genv) (ss : list sigT) (uva uvk : bool), Forall (raws_in S) ss -> Forall (coherent_sig rho g) ss -> res_map (observe g) (embed (map (eagerize rho) ss) uva uvk) = res_map (observe g) (embed ss uva uvk).
+Proof. exact @pep563_embed_local. Qed.
+Print Assumptions C11_pep563_embed_local.
+
+Theorem C11_pep563_forwards_local : forall (S : list N) (rho : N -> N), inj_on S rho -> forall (g : genv) (o i : sigT) (n : nat) (names0 : list name) (ha hk uva uvk p : bool), raws_in S o -> raws_in S i -> coherent_sig rho g o -> coherent_sig rho g i -> res_map (observe g) (forwards (eagerize rho o) (eagerize rho i) n names0 ha hk uva uvk p) = res_map (observe g) (forwards o i n names0 ha hk uva uvk p).
+Proof. exact @pep563_forwards_local. Qed.
+Print Assumptions C11_pep563_forwards_local.
+
+Theorem C11_pep563_discover_local : forall (S : list N) (rho : N -> N), inj_on S rho -> forall (g : genv) (own plain : sigT) (ha : bool) (calls : list callinfo), raws_in S own -> raws_in S plain -> Forall (raws_in_call S) calls -> coherent_sig rho g own -> coherent_sig rho g plain -> Forall (coherent_call rho g) calls -> observe g (discover (eagerize rho own) (eagerize rho plain) ha (map (Ecall rho) calls)) = observe g (discover own plain ha calls).
+Proof. exact @pep563_discover_local. Qed.
+Print Assumptions C11_pep563_discover_local.
+
+Theorem C11_embed_twin_refuted : exists (g : genv) (ds : list fdesc) (uva uvk : bool), Forall (bound_ok g) ds /\ res_map (observe g) (embed (map up (map (eager_twin g) ds)) uva uvk) <> res_map (observe g) (embed (map up ds) uva uvk).
+Proof. exact @embed_twin_refuted. Qed.
+Print Assumptions C11_embed_twin_refuted.
+
+Theorem C11_forwards_twin_refuted : exists (g : genv) (d0 d1 : fdesc), bound_ok g d0 /\ bound_ok g d1 /\ res_map (observe g) (forwards (up (eager_twin g d0)) (up (eager_twin g d1)) 0 [] false false true true false) <> res_map (observe g) (forwards (up d0) (up d1) 0 [] false false true true false).
+Proof. exact @forwards_twin_refuted. Qed.
+Print Assumptions C11_forwards_twin_refuted.
+
